@@ -57,7 +57,12 @@ def classify_number_to_text(crate, arm_body, var, ctx_emit, key, loc_fn):
             return
         if k == "MethodCall" and n["name"] == "to_string" and H.path_local(n["recv"]) == var:
             n_sites += 1
-            ctx_emit(key + "#to_string", True, "f64 Display (shortest round-trip digits)", H.loc(n))
+            rt = (n.get("recv_ty") or "").lstrip("&").replace("mut ", "")
+            casts = [x for x in H.walk(n["recv"]) if H.kind(x) == "Cast"]
+            if rt != "f64" or casts:
+                ctx_emit(key + "#to_string", False, "the number is converted (%s) before Display: not the f64's own shortest round-trip digits (-0, values beyond the integer range and fractions are lost)" % (rt or "cast"), H.loc(n))
+            else:
+                ctx_emit(key + "#to_string", True, "f64 Display (shortest round-trip digits)", H.loc(n))
             return
         if k == "Macro" and n["name"] in ("format", "write", "writeln", "format_args"):
             for ph, arg in H.placeholder_args(crate, n):
